@@ -13,7 +13,7 @@ VDIR = os.environ.get("VERIF_DIR", "/verif")   # which copy of the machinery run
 
 
 def sh(cmd, **kw):
-    r = subprocess.run(cmd, shell=True, stdout=subprocess.PIPE, stderr=subprocess.STDOUT, text=True, **kw)
+    r = subprocess.run(cmd, shell=True, stdout=subprocess.PIPE, stderr=subprocess.STDOUT, text=True, errors="replace", **kw)
     return r.returncode, r.stdout
 
 
@@ -40,6 +40,11 @@ try:
             txt = open(os.path.join(src, "demo.c")).read()
             import re as _re
             extra = " ".join(sorted(set(_re.findall(r"-Wl,--wrap=[\w,=-]+", "\n".join(txt.splitlines()[:80])))))
+            head = "\n".join(txt.splitlines()[:80])
+            # -D flags of the demo's own documented compile line (e.g. -DDEBUG_BUILD selects a non-default variant)
+            mcc = _re.search(r"\b(?:cc|gcc|clang)\b[^\n]*(?:\\\n[^\n]*)*", head)
+            if mcc:
+                extra += " " + " ".join(sorted(set(f for f in _re.findall(r"(?<![\w/])-D[A-Za-z_]\w*(?:=[\w.]+)?", mcc.group(0)) if f != "-D_GNU_SOURCE")))
             for l in txt.splitlines()[:60]:
                 if "EXTRA_CFLAGS:" in l:
                     extra += " " + l.split("EXTRA_CFLAGS:")[1].strip().rstrip("*/").strip()
